@@ -1,0 +1,48 @@
+//go:build verif
+
+package ring
+
+// Verification hooks for property C15 (build tag `verif`): thin exported wrappers over the unexported
+// event handlers of PartitionInstanceLifecycler, so that the external correspondence harness can run
+// them one at a time with an explicit clock, without the select loop, ticker or actor channel.
+// Add-only; no behaviour.
+
+import (
+	"context"
+	"time"
+
+	"github.com/prometheus/client_golang/prometheus"
+)
+
+// VerifCreatePartitionAndRegisterOwner is the `starting` handler when CreatePartitionOnStartup is set.
+func (l *PartitionInstanceLifecycler) VerifCreatePartitionAndRegisterOwner(ctx context.Context) error {
+	return l.createPartitionAndRegisterOwner(ctx)
+}
+
+// VerifWaitPartitionAndRegisterOwner is the `starting` handler when CreatePartitionOnStartup is not set.
+func (l *PartitionInstanceLifecycler) VerifWaitPartitionAndRegisterOwner(ctx context.Context) error {
+	return l.waitPartitionAndRegisterOwner(ctx)
+}
+
+// VerifReconcileOwnedPartition is one half of a reconcile tick.
+func (l *PartitionInstanceLifecycler) VerifReconcileOwnedPartition(ctx context.Context, now time.Time) {
+	l.reconcileOwnedPartition(ctx, now)
+}
+
+// VerifReconcileOtherPartitions is the other half of a reconcile tick.
+func (l *PartitionInstanceLifecycler) VerifReconcileOtherPartitions(ctx context.Context, now time.Time) {
+	l.reconcileOtherPartitions(ctx, now)
+}
+
+// VerifStopping is the `stopping` handler.
+func (l *PartitionInstanceLifecycler) VerifStopping() error { return l.stopping(nil) }
+
+// VerifReconcilesFailedTotal exposes the failure counter (the reconcile handlers swallow their errors).
+func (l *PartitionInstanceLifecycler) VerifReconcilesFailedTotal() *prometheus.CounterVec {
+	return l.reconcilesFailedTotal
+}
+
+// VerifIsPartitionStateChangeAllowed exposes the allowed-transition table.
+func VerifIsPartitionStateChangeAllowed(from, to PartitionState) bool {
+	return isPartitionStateChangeAllowed(from, to)
+}
